@@ -404,6 +404,13 @@ class ExprMixin:
             return o.bool_({ast.Lt: z3.fpLT, ast.LtE: z3.fpLEQ, ast.Gt: z3.fpGT, ast.GtE: z3.fpGEQ}[type(op)](a, b))
         elif lt == "str" and rt == "str" and cx.spec is not None:
             a, b = o.s(l), o.s(r)
+        elif {lt, rt} <= {"int", "float", "bool"}:
+            sym = {ast.Lt: "<", ast.LtE: "<=", ast.Gt: ">", ast.GtE: ">="}[type(op)]
+            return o.bool_(o.num_cmp(sym, l.e, r.e))
+        elif (l.e is not None and r.e is not None and cx.spec is None
+              and all(o.entails(st, z3.Or(self.w.V.is_int(x.e), self.w.V.is_flt(x.e))) for x in (l, r))):
+            sym = {ast.Lt: "<", ast.LtE: "<=", ast.Gt: ">", ast.GtE: ">="}[type(op)]
+            return o.bool_(o.num_cmp(sym, l.e, r.e))
         else:
             raise Unsupported("comparison of %s and %s" % (lt, rt))
         if isinstance(op, ast.Lt):
